@@ -475,6 +475,15 @@ func (s *Server) cmdEvalUnified(scriptIsSha bool, msg *Message) (res resp.Value,
 			"DEADLINE": luaDeadline,
 			"EVAL_CMD": lua.LString(msg.Command()),
 		})
+	// clear the per-call globals on every exit, before the state goes back to
+	// the pool
+	defer luaSetRawGlobals(
+		luaState, map[string]lua.LValue{
+			"KEYS":     lua.LNil,
+			"ARGV":     lua.LNil,
+			"DEADLINE": lua.LNil,
+			"EVAL_CMD": lua.LNil,
+		})
 
 	compiled, ok := s.luascripts.Get(shaSum)
 	var fn *lua.LFunction
@@ -498,13 +507,6 @@ func (s *Server) cmdEvalUnified(scriptIsSha bool, msg *Message) (res resp.Value,
 		s.luascripts.Put(shaSum, fn.Proto)
 	}
 	luaState.Push(fn)
-	defer luaSetRawGlobals(
-		luaState, map[string]lua.LValue{
-			"KEYS":     lua.LNil,
-			"ARGV":     lua.LNil,
-			"DEADLINE": lua.LNil,
-			"EVAL_CMD": lua.LNil,
-		})
 	if err := luaState.PCall(0, 1, nil); err != nil {
 		if strings.Contains(err.Error(), "context deadline exceeded") {
 			msg.Deadline.Check()
